@@ -79,3 +79,25 @@ Theorem C02_trimmed_edit_is_the_edit : forall isspace (t n pre post : str),
   = pre ++ n ++ post.
 Proof. intros isspace t n pre post. pose proof (trim_contract isspace t n) as H. destruct (trim isspace t n) as [p s]. now apply trim_replace. Qed.
 Print Assumptions C02_trimmed_edit_is_the_edit.
+
+(* the smart-quote stage of the matcher (the second stage, tried when the exact stage finds nothing): the text at the place it reports
+   equals the target up to quote style, character for character, inside the projected text, touching text of the document itself and
+   no tracked deletion, and it is the first such place *)
+Theorem C02_quote_match_denotes_target : forall sp t i, find_quote sp t = Some i ->
+  map qn (firstn (length t) (skipn i (map_text sp))) = map qn t
+  /\ i + length t <= length (map_text sp)
+  /\ (exists x, In x sp /\ o_real x = true /\ i < o_end x /\ o_start x < i + length t)
+  /\ (forall x, In x sp -> o_real x = true -> i < o_end x -> o_start x < i + length t -> is_some_nonempty (o_del x) = false)
+  /\ (forall k, k < i -> prefixb (map qn t) (skipn k (map qn (map_text sp))) = true -> touches_real sp k (k + length t) = false).
+Proof. exact find_quote_spec. Qed.
+Print Assumptions C02_quote_match_denotes_target.
+
+(* ... it is the answer the matcher gives then (no recorded answer of the later stages is consulted) ... *)
+Theorem C02_quote_match_used : forall sp t orc i, find_on sp t = None -> find_quote sp t = Some i -> find_match sp t orc = (Some (i, length t), orc).
+Proof. exact find_match_quote_used. Qed.
+Print Assumptions C02_quote_match_used.
+
+(* ... and where neither text nor target carries a typographic quote it is the exact stage *)
+Theorem C02_quote_stage_plain : forall sp t, (forall c, In c t -> qn c = c) -> (forall c, In c (map_text sp) -> qn c = c) -> find_quote sp t = find_on sp t.
+Proof. exact find_quote_plain. Qed.
+Print Assumptions C02_quote_stage_plain.
